@@ -465,7 +465,9 @@ func (m *Machine) chanClose(fr *frame, ch *ChanObj) {
 		m.runtimePanic(fr, "close of closed channel")
 	}
 	ch.Closed = true
-	// waiting receivers observe the close via their predicate; waiting senders panic when resumed
+	// waiting receivers observe the close via their predicate; waiting senders panic when resumed - their values are
+	// never delivered (the runtime releases every blocked sender with a panic), so they leave the send queue now
+	ch.sendq = nil
 }
 
 // selectOp implements ssa.Select.
